@@ -932,7 +932,17 @@ mod pipeline {
         /// to missing output), except for the ones for which
         /// `detached()` was called.  This is equivalent to what the
         /// shell does.
-        pub fn popen(mut self) -> PopenResult<Vec<Popen>> {
+        pub fn popen(self) -> PopenResult<Vec<Popen>> {
+            // Dropping the commands started before the failure waits
+            // for them.
+            self.start().map_err(|(e, _started)| e)
+        }
+
+        // Like popen(), but a failure also hands back the commands
+        // started so far, with their pipe ends already released and not
+        // yet waited for, so that a caller holding a pipe end of its own
+        // can release it before they are dropped.
+        fn start(mut self) -> std::result::Result<Vec<Popen>, (crate::PopenError, Vec<Popen>)> {
             self.check_no_stdin_data("popen");
             assert!(self.cmds.len() >= 2);
 
@@ -975,7 +985,7 @@ mod pipeline {
                             p.stdout.take();
                             p.stderr.take();
                         }
-                        return Err(e);
+                        return Err((e, ret));
                     }
                 }
             }
@@ -1036,7 +1046,18 @@ mod pipeline {
             self = self.stderr_to(err_write);
 
             let stdin_data = self.stdin_data.take();
-            let mut v = self.stdout(Redirection::Pipe).popen()?;
+            let mut v = match self.stdout(Redirection::Pipe).start() {
+                Ok(v) => v,
+                Err((e, started)) => {
+                    // The commands started so far write their stderr to
+                    // the pipe whose read end we hold: close it before
+                    // they are waited for, or one that fills the pipe
+                    // never exits.
+                    drop(err_read);
+                    drop(started);
+                    return Err(e);
+                }
+            };
             let vlen = v.len();
 
             let comm = communicate::communicate(
